@@ -1150,6 +1150,13 @@ func (se *stanzaEncoder) EncodeToken(t xml.Token) error {
 			var foundID, foundFrom bool
 			attrs := tok.Attr[:0]
 			for _, attr := range tok.Attr {
+				// Only unqualified attributes are the stanza's own id and from (x:id
+				// or x:from in some other namespace are neither a substitute for
+				// them nor to be dropped when empty).
+				if attr.Name.Space != "" {
+					attrs = append(attrs, attr)
+					continue
+				}
 				switch attr.Name.Local {
 				case "id":
 					// RFC6120 § 8.1.3
